@@ -729,6 +729,26 @@ def hCompress : Handler := handler fun args =>
     | _, _ => pure c27Raised
   | _ => none
 
+/-- `(isin (xs…) ((test block…)…))` ↦ `(chunked whole)` as 0/1 per element -/
+def hIsin : Handler := handler fun args =>
+  match args with
+  | [xs, tbs] => do
+    let xs ← xs.toNats?
+    let tbs ← tbs.toNatss?
+    let b2n := fun (b : Bool) => if b then 1 else 0
+    pure (.list [SExp.ofNats (xs.map (fun x => b2n (isinChunked x tbs))), SExp.ofNats (xs.map (fun x => b2n (tbs.flatten.contains x)))])
+  | _ => none
+
+/-- `(ss_blocks right ((block…)…) (needles…))` ↦ per block the row `_searchsorted_block` returns (`0 ↦ -1`, no offset) -/
+def hSsBlocks : Handler := handler fun args =>
+  match args with
+  | [r, bs, ys] => do
+    let r ← r.toBool?
+    let bs ← bs.toNatss?
+    let ys ← ys.toNats?
+    pure (.list (bs.map (fun b => SExp.ofInts (ys.map (fun y => ssBlock (sidePred r y) 0 b)))))
+  | _ => none
+
 /-- `(compress_np (cond as 0/1…) (xs…))` ↦ `(ok (…))` | `(raised)` : a NumPy condition, possibly longer than the axis -/
 def hCompressNp : Handler := handler fun args =>
   match args with
@@ -807,7 +827,7 @@ def table : List (String × Handler) := [
   ("searchsorted", hSearchsorted), ("bincount_w", hBincountW), ("unique_inverse", hUniqueInverse), ("bincount", hBincount), ("histogram", hHistogram), ("unique", hUnique),
   ("unique_internal", hUniqueInternal), ("nonzero", hNonzero), ("coarsen_sum", hCoarsen),
   ("aligned_coarsen", hAlignedCoarsen), ("da_coarsen", hDaCoarsen), ("histdd", hHistdd), ("hist2d", hHist2d),
-  ("digitize", hDigitize), ("compress", hCompress), ("compress_np", hCompressNp), ("unravel", hUnravel), ("ravel", hRavel), ("argwhere", hArgwhere),
+  ("digitize", hDigitize), ("compress", hCompress), ("compress_np", hCompressNp), ("isin", hIsin), ("ss_blocks", hSsBlocks), ("unravel", hUnravel), ("ravel", hRavel), ("argwhere", hArgwhere),
   ("bincount_tree", hBincountTree),
   ("concat_plan", hConcatPlan), ("pad", hPad), ("pad_chunks", hPadChunks), ("roll", hRoll),
   ("expand_tuple", hExpandTuple), ("contract_tuple", hContractTuple), ("lower_dim", hLowerDim),
